@@ -27,6 +27,7 @@ import (
 	"github.com/bufbuild/buf/private/pkg/storage"
 	"github.com/bufbuild/buf/private/pkg/storage/storageutil"
 	"github.com/bufbuild/buf/private/pkg/syserror"
+	"github.com/bufbuild/buf/private/pkg/verifhook"
 )
 
 // errNotDir is the error returned if a path is not a directory.
@@ -390,6 +391,7 @@ func (w *writeObjectCloser) SetLocalPath(string) error {
 }
 
 func (w *writeObjectCloser) Close() error {
+	verifhook.Hit("storageos.close.before_file_close")
 	err := toStorageError(w.file.Close())
 	// This is an atomic write operation - we need to rename to the final path
 	if w.path != "" {
@@ -398,9 +400,11 @@ func (w *writeObjectCloser) Close() error {
 		if atomicWriteErr != nil {
 			return toStorageError(errors.Join(atomicWriteErr, os.Remove(w.file.Name())))
 		}
+		verifhook.Hit("storageos.close.before_rename")
 		if err := os.Rename(w.file.Name(), w.path); err != nil {
 			return toStorageError(errors.Join(err, os.Remove(w.file.Name())))
 		}
+		verifhook.Hit("storageos.close.after_rename")
 	}
 	return err
 }
